@@ -70,6 +70,7 @@ CHECKS = {
         "level_note": "Trusted: scripted hook executable and its log.",
         "parts": [
             {"part": "hookmgr", "test": "TestStartupOrder", "quick": {"checks": 320, "shards": 16}, "thorough": {"checks": 16000, "shards": 16, "timeout": 3000}},
+            {"part": "e2e", "test": "TestE2E", "quick": {"checks": 240, "shards": 16, "shrinktime": "90s", "timeout": 900}, "thorough": {"checks": 5000, "shards": 16, "shrinktime": "180s", "timeout": 6000}, "owned_schedule": False},
         ],
     },
     "C11": {
@@ -112,6 +113,7 @@ CHECKS = {
         "level_note": "Trusted: golang.org/x/time/rate honours ReserveN with caller-supplied time the same way Wait does with real time.",
         "parts": [
             {"part": "limiter", "test": "TestLimiter", "quick": {"checks": 5000, "shards": 4}, "thorough": {"checks": 400000, "shards": 16, "timeout": 3000}},
+            {"part": "e2e", "test": "TestE2E", "quick": {"checks": 64, "shards": 16, "shrinktime": "30s", "timeout": 900}, "thorough": {"checks": 1200, "shards": 16, "timeout": 6000}, "owned_schedule": False},
         ],
     },
     "C13": {
